@@ -75,6 +75,10 @@ CLAIMED["C03"] = ("mirsym over every formatter function of the library (all layo
     "bounded symbolic model checking of the places where trivia changes hands: in ~100 formatter functions (loops visited once) no token is dropped together with comments (removed parentheses, condition parentheses, call-sugar parentheses, semicolons, rebuilt symbols); every comment trivia is formatted and pushed exactly once; the text and bracket level of a comment survive for all texts of <= 5 (thorough 7) characters",
     "trusts rustc's MIR printer, mirsym, z3, the exactness of trivia_util's comment tests; comments moved between tokens inside Punctuated lists and double formatting of discarded trial results are outside", "5/C03")
 
+CLAIMED["C16"] = ("mirsym over one step of format()'s walker loop from an arbitrary loop state (the walker yields one entry; seen / is_file / explicit / glob match / ignored are independent symbolic facts), should_respect_ignores / is_explicitly_provided, and the walker set-up calls; z3; directory-tree replay",
+    "bounded symbolic model checking of the in-repo selection logic only: an entry is handed to the pool iff it is new, a file, and selected by the documented explicit / default-glob / --respect-ignores rules; it is recorded in seen_files exactly when new; the worker gets that entry's path; hidden(!allow_hidden), .styluaignore as custom ignore file, default glob iff no --glob. Which paths the `ignore` crate's walker yields for a tree is its contract, not decided here",
+    "trusts rustc's MIR printer, mirsym, z3 and the `ignore` / globset crates (walker, gitignore matcher, overrides precedence)", "5/C16")
+
 CLAIMED["C15"] = ("override dominance over every configuration route (vcheck/cfgorigin.py); mirsym over find_config_file (recursion inlined) / lookup_config_file_in_directory / find_toml_file / load_configuration(_for_stdin) with the file system abstracted to a symbolic directory chain and a map-summarised cache, two successive lookups; z3 against the documented precedence; directory-tree replay",
     "bounded symbolic model checking of the precedence kernels: for every existence pattern of stylua.toml/.stylua.toml on a chain of 4 directories, every cwd position or parent search: the nearest file up to the root (or XDG/HOME) is chosen, a cached second lookup (same directory or its parent) agrees; forced > found > editorconfig (unless disabled) > defaults",
     "trusts rustc's MIR printer, mirsym + Path/HashMap summaries, z3; toml decoding, ec4rs discovery and the XDG/HOME probing order are outside", "5/C15-C20")
